@@ -23,6 +23,7 @@ def main() -> int:
     src = os.path.join(a.repo, "src")
     if a.repo != "/repo":
         sys.path.insert(0, src)
+        os.environ["PYTHONPATH"] = src + os.pathsep + os.environ.get("PYTHONPATH", "")
     import physt  # noqa
     if not os.path.abspath(physt.__file__).startswith(os.path.abspath(src)):
         print(f"machinery error: physt imported from {physt.__file__}, expected under {src}", file=sys.stderr)
